@@ -573,6 +573,14 @@ func runC17(c *Ctx) {
 	checkSaltedHash(c, "C17-R5")
 	checkInvalidPasswordOnlyOnDigestMismatch(c, "C17-R3")
 	checkChangeVerifiesOldPassphrase(c, "C17-R5")
+	// "stored parameters and ciphertexts stay bound to the current passphrase": a passphrase change that reports success
+	// has written both the re-sealed crypto keys and the new key parameters (C10-R1's rule, for ChangePassphrase)
+	c.Borrow(runC10, "C10-R1", "C17-R5", func(k string) bool { return strings.Contains(k, "ChangePassphrase") })
+	// the passphrase-derived key's own entry points are forwarders: every plaintext, the empty one included, is sealed
+	checkMustPassOnSuccess(c, "C17-R1", "secret-key-encrypt-always-seals", snaclMethod(c, "C17-R1", "SecretKey", "Encrypt"), "Encrypt",
+		"SecretKey.Encrypt can report success without sealing (a shortcut for some inputs, e.g. the empty plaintext): the result carries neither nonce nor authenticator, two encryptions are identical and Decrypt rejects it")
+	checkMustPassOnSuccess(c, "C17-R1", "secret-key-decrypt-always-opens", snaclMethod(c, "C17-R1", "SecretKey", "Decrypt"), "Decrypt",
+		"SecretKey.Decrypt can report success without opening the box: data is returned that no authenticator vouches for")
 	checkNoOverRejectingLengthGuard(c, "C17-R1")
 	checkSnaclErrors(c, "C17-R3")
 	checkSelectedKeyUsedUnderLock(c, "C17-R5")
